@@ -132,7 +132,7 @@ def group_clauses(spec: dict[str, Any], audit: list[tuple[Any, ...]], got: dict[
             if s.get("choice"):
                 groups.setdefault(s["choice"], []).append(r)
         for grp, refs in groups.items():
-            reachable = [r for r in refs if all(got["stages"].get(u) in oracles.CONTINUABLE for u in m[r]["req"])]
+            reachable = [r for r in refs if all(got["stages"].get(u) in oracles.CONTINUABLE for u in m[r]["req"]) and m[r].get("enabled") is not False]
             if not reachable:
                 continue
             winners = left_not_started.get(grp, [])
@@ -244,6 +244,8 @@ def group_spec(draw) -> dict[str, Any]:
             s["mutex"] = draw(st.sampled_from(["k", "k", "k2"]))
         if kind in ("choice", "both"):
             s["choice"] = "g"
+            if draw(st.integers(0, 5)) == 0:
+                s["enabled"] = False  # a member that is switched off (stageEnabled false) is skipped, it is no candidate
         if kind == "plain" and draw(st.booleans()):
             s["tasks"] = [{"b": "poll", "k": 1}]
         stages.append(s)
